@@ -184,8 +184,10 @@ def gen_matrix(rng, n, kind, den):
     return [[R(-3, 3) for _ in range(n)] for _ in range(n)]
 
 
-def gen_case(rng, thorough):
+def gen_case(rng, thorough, n_fixed=None):
     n = rng.choice([1, 2, 2, 3, 3, 3, 4, 4, 4, 5, 5, 6])
+    if n_fixed is not None:
+        n = n_fixed
     kind = rng.choice(["PD", "PD", "P", "PSD", "SC", "GEN"])
     den = rng.choice([1, 1, 1, 2, 4])
     M = gen_matrix(rng, n, kind, den)
@@ -254,6 +256,49 @@ def run_impl(case):
     d = None if case["d"] is None else np.array([float(x) for x in case["d"]], dtype=float)
     res = lcp_lemke(M, q, d=d, max_iter=case["max_iter"])
     return [float(x) for x in res.z], bool(res.success), int(res.status), int(res.num_iter)
+
+
+def gen_buffer_sequences(rng, nseq, thorough):
+    """call SEQUENCES: 2-4 different problems of one size solved with ONE set of caller-supplied buffers (tableau, basis, z:
+    every optional buffer of lcp_lemke), pre-filled with garbage (7.0 / 7) and never cleaned between the solves.
+    mode 'all': tableau, basis and z; 'z': only z; 'tb': only the work arrays tableau and basis."""
+    out = []
+    for sid in range(nseq):
+        n = rng.choice([2, 3, 3, 4, 4, 5, 6])
+        mode = ["all", "all", "tb", "z"][sid % 4]
+        dgiven = rng.random() < 0.5
+        kind = rng.choice(["P", "P", "PD", "SC", None])       # the same class within a sequence (same stale structure)
+        for pos in range(rng.randrange(2, 5)):
+            for _ in range(20):
+                case = gen_case(rng, thorough, n)
+                if kind is None or case["kind"] == kind:
+                    break
+            if dgiven and case["d"] is None:
+                case["d"] = [Fraction(rng.randrange(1, 4)) for _ in range(n)]
+            if not dgiven:
+                case["d"] = None
+            case["max_iter"] = 1000
+            case["buf"] = (sid, mode, pos)
+            out.append(case)
+    return out
+
+
+def run_impl_buffers(case, store):
+    from quantecon.optimize import lcp_lemke
+    sid, mode, pos = case["buf"]
+    n = case["n"]
+    if sid not in store:
+        store[sid] = dict(tableau=np.full((n, 2 * n + 2), 7.0), basis=np.full(n, 7, dtype=np.int_), z=np.full(n, 7.0))
+    b = store[sid]
+    names = {"all": ("tableau", "basis", "z"), "z": ("z",), "tb": ("tableau", "basis")}[mode]
+    M = np.array([[float(x) for x in r] for r in case["M"]], dtype=float).reshape(n, n)
+    q = np.array([float(x) for x in case["q"]], dtype=float)
+    d = None if case["d"] is None else np.array([float(x) for x in case["d"]], dtype=float)
+    res = lcp_lemke(M, q, d=d, max_iter=case["max_iter"], **{name: b[name] for name in names})
+    problems = []
+    if "z" in names and not (np.shares_memory(res.z, b["z"]) and np.array_equal(res.z, b["z"], equal_nan=True)):
+        problems.append("res.z is not the supplied z buffer")
+    return ([float(x) for x in res.z], bool(res.success), int(res.status), int(res.num_iter)), problems
 
 
 def oracle(ctx, case, out, record=True):
@@ -328,6 +373,9 @@ def warmup():
         try:
             run_impl(dict(n=1, M=[[Fraction(2)]], q=[Fraction(-1)], d=None, max_iter=10))
             run_impl(dict(n=1, M=[[Fraction(2)]], q=[Fraction(-1)], d=[Fraction(1)], max_iter=10))
+            for i, mode in enumerate(("all", "z", "tb")):
+                for d in (None, [Fraction(1)]):
+                    run_impl_buffers(dict(n=1, M=[[Fraction(2)]], q=[Fraction(-1)], d=d, max_iter=10, buf=(i, mode, 0)), {})
             return
         except OSError:
             time.sleep(1.0 + attempt)
@@ -337,16 +385,30 @@ def warmup():
 def run(ctx):
     thorough = ctx.tier == "thorough"
     warmup()
-    ctx.proofs(["C11/Props.v", "C04/PropsTie.v"])
-    N = 9000 if thorough else 520
+    ctx.proofs(["C11/Props.v", "C04/PropsTie.v", "C11/PropsTie.v"])
+    N = 9000 if thorough else 440
     NR = 1500 if thorough else 100
     cases = [normalise(c) for c in FIXED]
     cases += [gen_case(ctx.rng, thorough) for _ in range(N)]
     cases += [gen_real_case(ctx.rng) for _ in range(NR)]
+    cases += gen_buffer_sequences(ctx.rng, 200 if thorough else 40, thorough)
     coq_cases, coq_cases_f, outs = [], [], []
+    bufstore = {}
     for case in cases:
         case["classes"] = classify(case["M"])
-        out = run_impl(case)
+        if "buf" in case:
+            # the model knows no buffers: the result must be the fresh-buffer result (compared with the model below AND with a
+            # fresh-buffer run of the implementation here); the oracle runs on the RETURNED z
+            out, problems = run_impl_buffers(case, bufstore)
+            fresh = run_impl(case)
+            ctx.count("buffer_sequence:%s:position=%d" % (case["buf"][1], case["buf"][2]))
+            if out != fresh:
+                problems.append("result with caller-supplied (reused / garbage-filled) buffers differs from the fresh-buffer result %r" % (fresh,))
+            for what in problems:
+                ctx.fail("lcp_buffers", what, dict(case_input(case), buffers=case["buf"][1], position_in_sequence=case["buf"][2]),
+                         dict(zip(("z", "success", "status", "num_iter"), out)), None)
+        else:
+            out = run_impl(case)
         outs.append(out)
         z, su, st, ni = out
         nontriv = case["n"] >= 2 and any(x < 0 for x in case["q"])
@@ -402,6 +464,13 @@ def replay(data):
     case = normalise(dict(kind=inp.get("kind", "GEN"), n=inp["n"], M=inp["M"], q=inp["q"], d=inp.get("d"),
                           max_iter=inp.get("max_iter", 1000)))
     case["classes"] = classify(case["M"])
+    if inp.get("buffers"):      # caller-supplied buffers pre-filled with garbage (7.0): first solve of a sequence
+        case["buf"] = (0, inp["buffers"], 0)
+        outb, problems = run_impl_buffers(case, {})
+        fresh = run_impl(case)
+        print("with garbage-filled %s buffers: %r ; fresh buffers: %r ; %s" % (inp["buffers"], outb, fresh, problems))
+        if outb != fresh:
+            print("ORACLE FAIL lcp_buffers: result depends on the contents of the supplied buffers")
     out = run_impl(case)
     print("implementation: z=%s success=%s status=%s num_iter=%s" % out)
 
